@@ -12,7 +12,8 @@ Coq part is a partial proof and the decisive part is differential.
                  (including the in-place writes of add / sort_monomials); and the Coq model of Analysis.func is a
                  function of (function, stop), so its value at a position of a history is its value alone.
   history        (a) random sequences of analyses in ONE process (Analysis.run fin/strict on/off, LoopAnalysis.run,
-                 same program twice, many functions per file, corpus files of /repo/c_files), every result
+                 same program twice, many functions per file, functions with unsupported / edge syntax, corpus files
+                 of /repo/c_files), every result
                  (to_dict minus timestamps, dictionaries as mappings) compared with a run of the same
                  (program, options) in a process in which nothing was analysed before; functions of a
                  many-function file also against the file holding that function alone; ZERO/UNIT compared (ids,
@@ -531,7 +532,11 @@ def worker_refmodel(spec):
         return PL.gen_reachable(rng, rng.choice([1, 2, 2, 3]), 3, cap=24)
 
     # ---- add / times / copy ----
+    t_start = time.time()
     for _ in range(spec["n_ops"]):
+        if skipped["op_exc"] > 25 or time.time() - t_start > spec.get("budget_s", 120):
+            skipped["aborted"] = 1
+            break
         try:
             P = gen_poly()
             r = rng.random()
@@ -576,6 +581,9 @@ def worker_refmodel(spec):
         labels_loops.append(label)
 
     for _ in range(spec["n_loops"]):
+        if skipped["loop_exc"] > 15 or time.time() - t_start > 2 * spec.get("budget_s", 120):
+            skipped["aborted"] = 1
+            break
         try:
             n = rng.choice([1, 2, 2, 3])
             cells = []
@@ -638,6 +646,9 @@ def worker_refmodel(spec):
     wrap("loop_correction", True)
     for src in spec["srcs"]:
         cur["src"] = src
+        if time.time() - t_start > 3 * spec.get("budget_s", 120):
+            skipped["aborted"] = 1
+            break
         try:
             vlib.with_timeout(lambda: Analysis.run(CParser().parse(src), fin=True), 20)
         except BaseException as e:
@@ -722,7 +733,11 @@ def corpus_files(thorough):
 def make_pool(ctx):
     import gen_prog
     import streams
-    pool = {"gen": [], "multi": [], "corpus": []}
+    import syntax_common
+    pool = {"gen": [], "multi": [], "corpus": [], "edge": []}
+    for k in range(ctx.n(16, 80)):     # functions with constructs at the edge / outside of the supported syntax (ast_mod, strict refusals)
+        src, _ = syntax_common.gen_parsed(ctx.rng, ctx.rng.choice([0.2, 0.35, 0.5]), maxdepth=2)
+        pool["edge"].append((f"edge{k}", src))
     for label, src in streams.programs(ctx, ctx.n(40, 220), max_sites=ctx.n(4, 5)):
         pool["gen"].append((label, src))
     for k in range(ctx.n(8, 40)):
@@ -739,10 +754,13 @@ def make_pool(ctx):
 
 def make_step(rng, pool):
     r = rng.random()
-    if r < 0.55:
+    if r < 0.45:
         label, src = rng.choice(pool["gen"])
         fam = "gen"
-    elif r < 0.75 and pool["multi"]:
+    elif r < 0.6 and pool["edge"]:
+        label, src = rng.choice(pool["edge"])
+        fam = "edge"
+    elif r < 0.78 and pool["multi"]:
         label, src, _ = rng.choice(pool["multi"])
         fam = "multi"
     elif pool["corpus"]:
@@ -909,7 +927,7 @@ def run(ctx):
                 fresh_map.append((hs, a))
         ref_srcs = [src for _, src in pool["gen"][:ctx.n(40, 150)]]
         ref_specs = [({"seed": ctx.rng.randrange(1 << 30), "n_ops": ctx.n(220, 900), "n_loops": ctx.n(40, 160),
-                       "srcs": ref_srcs[i::ctx.n(2, 4)]}, 0) for i in range(ctx.n(2, 4))]
+                       "srcs": ref_srcs[i::ctx.n(2, 4)], "budget_s": ctx.n(60, 240)}, 0) for i in range(ctx.n(2, 4))]
         hist_out = run_workers("history", [({"steps": h["steps"], "instrument": h["instrument"]}, h["hashseed"]) for h in histories], tmp, "h", par=16)
         t_hist = time.time() - t0
         fresh_out = run_workers("fresh", fresh_specs, tmp, "f", par=16)
@@ -940,6 +958,8 @@ def run(ctx):
                 if other is None:
                     continue
                 seed_cmp += 1
+                if "harness_exc" in base or "harness_exc" in other:
+                    continue
                 if (base["res"], base["exc"]) != (other["res"], other["exc"]):
                     failing.append({"what": f"hash-seed: fresh-process result under PYTHONHASHSEED={hs} differs from PYTHONHASHSEED=0",
                                     "sig": ["C13", "hash-seed"], "input": {"steps": [pub(job)], "hashseed": hs},
@@ -951,7 +971,7 @@ def run(ctx):
                         key_order_samples.append({"src": job["src"], "kind": job["kind"], "strict": job["strict"], "hashseed": hs})
         # ---- (a), (c), (d) histories ----
         kinds = {"F": 0, "F-fin": 0, "F-strict": 0, "L": 0, "L-strict": 0}
-        fams = {"gen": 0, "multi": 0, "corpus": 0}
+        fams = {"gen": 0, "multi": 0, "corpus": 0, "edge": 0}
         nsteps = same_twice = ast_checked = ast_modified_allowed = per_func = exc_steps = hist_key_order = 0
         counts_tot = {}
         coq_cases = []
@@ -984,7 +1004,7 @@ def run(ctx):
                 if rec["exc"]:
                     exc_steps += 1
                 ref = fresh_rec(st)
-                if ref is None:
+                if ref is None or "harness_exc" in ref:
                     continue
                 if has_loop(ref):
                     nontrivial.add(job_key(st))
@@ -1022,7 +1042,7 @@ def run(ctx):
                     sec = "relations" if st["kind"] == "F" else "loops"
                     for fn, fsrc in multi_parts[st["src"]]:
                         single = fresh_rec(dict(st, src=fsrc))
-                        if single is None or single["res"] is None:
+                        if single is None or single.get("res") is None:
                             continue
                         a = (rec["res"].get(sec) or {}).get(fn)
                         b = (single["res"].get(sec) or {}).get(fn)
@@ -1056,6 +1076,8 @@ def run(ctx):
             nref_loops += len(res["loops"])
             for kk, vv in res["skipped"].items():
                 ref_skipped[kk] = ref_skipped.get(kk, 0) + vv
+        if ref_skipped.get("aborted") or ref_skipped.get("op_exc", 0) + ref_skipped.get("loop_exc", 0) > 10:
+            mism.append("reference-model stream: the real add/times/fixpoint raised or hung on generated operands (none does on the unchanged tree): " + str(ref_skipped))
         ncaptured = sum(1 for r in ref_ok for lb in r["labels_loops"] if "captured_from" in lb)
         if ctx.coq_ok:
             refmodel_compare(ref_ok, mism)
@@ -1071,7 +1093,7 @@ def run(ctx):
         stats = {"evaluations": nsteps + sum(len(f) for f in fresh) + nref_ops + nref_loops + ncoq,
                  "distinct_nontrivial": len(nontrivial),
                  "rule": "history steps = Analysis.run(fin, strict) / LoopAnalysis.run(strict) calls inside random sequences run in one process each "
-                         "(generated functions incl. biased loop streams, files of 2-4 functions, /repo/c_files), each compared with the fork-fresh run "
+                         "(generated functions incl. biased loop streams, functions with unsupported/edge syntax, files of 2-4 functions, /repo/c_files), each compared with the fork-fresh run "
                          "of the same (program, options); non-trivial = distinct (program, kind, fin, strict) occurring in a history whose program has >= 1 loop",
                  "samples": [{"history_prefix": [pub(s) for s in sample_h], "hashseed": histories[0]["hashseed"] if histories else None}] + key_order_samples[:1],
                  "histories": nseq, "history_lengths": {"min": min(lens), "max": max(lens), "total_steps": nsteps},
@@ -1088,6 +1110,13 @@ def run(ctx):
                  "wall": {"histories_s": round(t_hist, 1), "fresh_s": round(t_fresh, 1), "total_s": round(time.time() - t0, 1)}}
     finally:
         shutil.rmtree(tmp, ignore_errors=True)
+    if not mism:       # the case files carry the pid (concurrent runs): remove them unless they are needed to look at a mismatch
+        import glob
+        for f in glob.glob(os.path.join(vlib.COQ, "corr", f"c13p{os.getpid()}*")) + glob.glob(os.path.join(vlib.COQ, "corr", f".c13p{os.getpid()}*")):
+            try:
+                os.remove(f)
+            except OSError:
+                pass
     mism = list(dict.fromkeys(mism))[:25]
     return {"failing": failing[:60], "corr_mismatch": mism, "stats": stats}
 
@@ -1128,8 +1157,6 @@ def replay(ctx, data):
     finally:
         shutil.rmtree(tmp, ignore_errors=True)
 
-
-NOT_CLAIMED = "in progress"
 
 if __name__ == "__main__":
     _main()
